@@ -200,7 +200,16 @@ func (w *kWorld) apply(op string) *kStep {
 		}
 		st.CacheOpsBefore = append([]string(nil), w.cacheOps[kf.idx][st.Part]...)
 		if st.LongLived || kf.spec.SharedIK {
-			w.cacheOps[kf.idx][st.Part] = append(w.cacheOps[kf.idx][st.Part], "enc")
+			// "enc+latest": this encrypt went to the metastore for the latest intermediate key (the path that validates the
+			// parent system key); plain "enc": it was served by the cache
+			kind := "enc"
+			ikID := ref.IntermediateKeyID(st.Part, "s", "p", "")
+			for _, cl := range w.ms.Calls[st.msFrom:] {
+				if cl.Op == "LoadLatest" && cl.ID == ikID {
+					kind = "enc+latest"
+				}
+			}
+			w.cacheOps[kf.idx][st.Part] = append(w.cacheOps[kf.idx][st.Part], kind)
 		}
 	case "dec": // dec:F:L|N:part:old|new
 		kf := w.F[atoi(f[1])-1]
@@ -223,7 +232,25 @@ func (w *kWorld) apply(op string) *kStep {
 			st.Err = fmt.Errorf("C01: decrypt modified the caller's record")
 		}
 		if st.LongLived || kf.spec.SharedIK {
-			w.cacheOps[kf.idx][st.Part] = append(w.cacheOps[kf.idx][st.Part], "dec")
+			// "dec+insert": the intermediate key was not in the cache and was put there by this exact (id, created) lookup;
+			// "dec+reload": a stale entry was re-read by the exact lookup; plain "dec": served by the cache
+			kind := "dec"
+			ikID := ref.IntermediateKeyID(st.Part, "s", "p", "")
+			loaded := false
+			for _, cl := range w.ms.Calls[st.msFrom:] {
+				if cl.Op == "Load" && cl.ID == ikID {
+					loaded = true
+				}
+			}
+			if loaded {
+				kind = "dec+reload"
+				for _, l := range w.logs[st.logFrom:] {
+					if strings.Contains(l, " miss -- id: "+ikID) {
+						kind = "dec+insert"
+					}
+				}
+			}
+			w.cacheOps[kf.idx][st.Part] = append(w.cacheOps[kf.idx][st.Part], kind)
 		}
 	case "tick":
 		vclock.Advance(time.Duration(atoi(f[1])) * time.Second)
